@@ -391,6 +391,19 @@ def main():
     except Exception as e:
         status['imp'] = 'failed: %s' % e
     try:
+        import strtrans
+        g4 = dict(golden)
+        txt, sst = strtrans.lean_file(g4)
+        changed |= write_if_changed(os.path.join(GEN, 'IrfNameGen.lean'), txt)
+        for k_, v_ in sst.items():
+            status['functions'][k_] = dict(v_, lean='Str.' + k_, params=[], bools=[], selfattrs=[], absparams=[], nret=1, abscalls=[])
+        if update:
+            for k_, v_ in g4.items():
+                if k_.startswith('str:'):
+                    golden[k_] = v_
+    except Exception as e:
+        status['strtrans'] = 'failed: %s' % e
+    try:
         import cachesites
         txt, sites = cachesites.lean_table(os.environ.get('IXPE_REPO', os.path.dirname(os.path.dirname(importlib.import_module('ixpeobssim').__file__))))
         changed |= write_if_changed(os.path.join(GEN, 'CacheSites.lean'), txt)
